@@ -10,7 +10,7 @@ cp -r /repo/pipefunc /repo/pyproject.toml /repo/README.md "$scr"/
 find "$scr" -name __pycache__ -prune -exec rm -rf {} +
 cd /verif
 for id in "$@"; do
-  VERIF_REPO="$scr" ./check "$id" --tier "${TIER:-quick}" --no-evidence 2>&1 | grep -E "^(VIOLATION|KNOWN|UNSTABLE|HARNESS|C[0-9]+ tier)" | cut -c1-300 | awk -v id="$id" 'BEGIN{n=0} /^VIOLATION/{n++; if(n<=3)print; next} {print} END{print id": "n" VIOLATION lines"}'
+  VERIF_REPO="$scr" ./check "$id" --tier "${TIER:-quick}" --no-evidence ${BUDGET:+--budget $BUDGET} 2>&1 | grep -E "^(VIOLATION|KNOWN|UNSTABLE|HARNESS|C[0-9]+ tier)" | cut -c1-300 | awk -v id="$id" 'BEGIN{n=0} /^VIOLATION/{n++; if(n<=3)print; next} {print} END{print id": "n" VIOLATION lines"}'
 done
 if [ "${BASELINE:-0}" = 1 ]; then
   /venv/bin/python tools/baseline_cmp.py "$scr"
